@@ -300,39 +300,46 @@ func (s *aSpec) step(cfg aCfg, o *aOp) aPred {
 		p.inTx = true
 		n := s.clone()
 		dead := map[string]bool{} // ids whose data stopped being a document
+		// the store's own checks run entry by entry in the transform function and stop the batch at the first
+		// failure; an index complaint (about any entry) may surface first in the real code (goroutine order): the
+		// canonical reason is the store's first one, else `index`
+		storeReason, illTyped := "", false
 		for _, it := range o.Items {
 			e, ok := n.m[it.Label]
 			if !ok {
 				continue
 			}
 			if e.noData || dead[it.Label] {
-				if p.reason == "" {
-					p.reason = "bad-old"
+				if storeReason == "" {
+					storeReason = "bad-old"
 				}
 				dead[it.Label] = true
 				continue
 			}
 			if it.NoData {
-				if p.reason == "" {
-					p.reason = "bad-new"
+				if storeReason == "" {
+					storeReason = "bad-new"
 				}
 				dead[it.Label] = true
 				continue
 			}
 			m := shallowMerge(e.doc, it.Doc)
 			p.merged = append(p.merged, m)
-			if len(encodeDoc(m)) > cfg.Max && (p.reason == "" || p.reason == "index") {
-				// the store's own checks come first in the transform function; an index complaint
-				// about an EARLIER entry may race with it: the canonical reason is the store's
-				p.reason = "too-large"
+			if len(encodeDoc(m)) > cfg.Max && storeReason == "" {
+				storeReason = "too-large"
 			}
-			if !conformsGo(cfg.Idx, m) && p.reason == "" {
-				p.reason = "index"
+			if !conformsGo(cfg.Idx, m) {
+				illTyped = true
 			}
 			n.m[it.Label] = aEntry{doc: m}
 			p.updated = append(p.updated, it.Label)
 		}
-		if p.reason == "" {
+		switch {
+		case storeReason != "":
+			p.reason = storeReason
+		case illTyped:
+			p.reason = "index"
+		default:
 			p.accepted, p.next = true, n
 		}
 	case "adelete":
